@@ -82,6 +82,13 @@ def box(sym: Sym, st: State):
             return sym.py.keys.arg(0)
         if k == "set" and z3.is_app(sym.t) and sym.t.decl().name() == "setelems":
             return sym.t.arg(0)
+        if k == "set":
+            # a function of the content (binder-safe; equal contents box to equal values)
+            v = uf("mkSet", SeqV, V)(sym.t)
+            st.pc.append(uf("setelems", V, SeqV)(v) == sym.t)
+            st.pc.append(typeof(v) == CLASSES.const("set"))
+            st.pc.append(truthy(v) == (Q.Length(sym.t) > 0))
+            return v
         v = fresh("box" + k, V)
         if not (st.notes.get("binders") or []):
             if k == "dict":
@@ -122,6 +129,7 @@ def unbox(spec: Spec, t, st: State, facts: bool = True) -> Sym:
             return S_int(t.arg(0))
         if facts:
             st.assume(t != NONE)
+            st.assume(isa(t, "int"))   # type invariant of an int-annotated location (bool included)
         return S_int(unI(t))
     if k == "bool":
         if _is_app_of(t, mkB):
